@@ -307,6 +307,8 @@ static void make_link(tommy_hashdyn* poolset, const char* pool_dir, const char* 
 	char path[PATH_MAX];
 	char linkto[PATH_MAX];
 	char linkto_exported[PATH_MAX];
+	char dir[PATH_MAX];
+	char* c;
 	struct snapraid_pool* found;
 	int ret;
 
@@ -348,6 +350,21 @@ static void make_link(tommy_hashdyn* poolset, const char* pool_dir, const char* 
 		}
 
 		pool_free(found);
+	}
+
+	/* a link of a previous run may now be in the way of a directory: remove it */
+	/* at once, and not only when cleaning, otherwise the ancestors are searched, */
+	/* and the new link is created, through it, inside the disk it points to */
+	pathcpy(dir, sizeof(dir), sub);
+	for (c = strchr(dir, '/'); c != 0; c = strchr(c + 1, '/')) {
+		*c = 0;
+		found = tommy_hashdyn_search(poolset, pool_compare, dir, pool_hash(dir));
+		if (found) {
+			tommy_hashdyn_remove_existing(poolset, &found->node);
+			remove_link((void*)pool_dir, found);
+			pool_free(found);
+		}
+		*c = '/';
 	}
 
 	/* create the ancestor directories */
